@@ -109,6 +109,10 @@ def impl(case):
         kw.update(xs=xs, ys=ys)
     extra = np.arange(100, 100 + n).reshape(nr, nc)
     m2 = mask.reshape(nr, nc) if mask is not None else None
+    if m2 is not None and sum(call["flw"]) % 3 == 0:
+        # a mask that is also True on cells outside the network (np.ones, an order map with 255 as nodata): they have no links and
+        # add nothing (round-6 seed: their missing downstream index counted as an inflow of the last cell)
+        m2 = m2 | (np.array(ds).reshape(nr, nc) < 0)
     if call["mode"] == "vectorize":
         st, feats = call_impl(flw.vectorize, mask=m2, extra=extra, **kw)
     elif call["mode"] == "min_sto":
